@@ -12,14 +12,16 @@ EXHAUSTIVE = True
 RULE = ("a family of 21 helpers defined IN THE HARNESS with the current handlebars_helper! (so the macro is expanded from "
         "/repo's source): every type token (str, i64, u64, f64, bool, array, object, null, Json, String, Vec<u64>) at arity "
         "0..3 with 0..2 options, *args, **kwargs; EXHAUSTIVE: every helper x every combination of argument kinds from a pool "
-        "with each JSON type, a missing path and an omitted argument (positional and option), x strict / non-strict; used as "
+        "with each JSON type, a missing path, an omitted argument and results of subexpressions (null, number) (positional and option), x strict / non-strict; used as "
         "subexpression (typed result observed through a probe) and as expression (written, escaped); oracle = the declared "
         "signature evaluated by the generator; non-trivial = every case; distinct by (helper, arguments, mode)")
 DEFINITE_FLOOR = 0.95
 POOL = [("str", "\"s<\"", "s<"), ("int", "7", 7), ("neg", "-3", -3), ("big", "18446744073709551615", 2 ** 64 - 1), ("float", "1.5", F.of(1.5)),
         ("bool", "true", True), ("null", "null", None), ("arr", "[1, 2]", [1, 2]), ("sarr", "[\"a<\", \"&b\"]", ["a<", "&b"]), ("obj", "{\"k\": \"<v>\"}", {"k": "<v>"}),
-        ("path", "dv", "data"), ("missing", "nope", "MISSING"), ("omit", None, "OMIT")]
-SHORT = [p for p in POOL if p[0] in ("str", "int", "bool", "missing", "omit", "arr")]
+        ("path", "dv", "data"), ("missing", "nope", "MISSING"), ("omit", None, "OMIT"),
+        # arguments that are RESULTS OF SUBEXPRESSIONS: a helper that returns null / a number hands over a typed value, not an absent one
+        ("subnull", "(m_ident null)", None), ("subint", "(m_ident 7)", 7)]
+SHORT = [p for p in POOL if p[0] in ("str", "int", "bool", "missing", "omit", "arr", "subnull")]
 
 
 def conv(t, v):
@@ -157,7 +159,8 @@ def generate(rng, n, tier="quick"):
                         # a bare `(name)` is a path subexpression: the call form needs an argument
                         tpl = "{{{pr (%s)}}}" % name
                     cfg = {"escape": "html", "strict": strict,
-                           "helpers": [{"name": "pr", "kind": "probe"}, {"name": name, "kind": "macro", "sig": sig_json(name)}]}
+                           "helpers": [{"name": "pr", "kind": "probe"}, {"name": name, "kind": "macro", "sig": sig_json(name)}]
+                                      + ([{"name": "m_ident", "kind": "macro", "sig": sig_json("m_ident")}] if name != "m_ident" else [])}
                     case = session(cfg, [], {"api": "render_template", "src": tpl}, {"dv": "data"})
                     case["id"] = "%s-%05d" % (ID, k)
                     k += 1
